@@ -5,23 +5,24 @@ sys.path.insert(0, "/verif")
 from sa import props
 from sa.core import Repo, AnalysisError
 from sa.runner import run_rules
-rows = []
-for sid in sorted(os.listdir("/verif/seeded")):
+def one(sid):
     d = f"/verif/seeded/{sid}"
-    if not os.path.isdir(d):
-        continue
     meta = json.load(open(d + "/meta.json"))
-    if meta.get("obsolete_since"):
-        continue
     tmp = tempfile.mkdtemp(prefix="st_")
     try:
         shutil.copytree("/repo/lbfgsb", tmp + "/lbfgsb")
         r = subprocess.run(["patch", "-p1", "-s", "-d", tmp, "-i", d + "/patch.diff"], capture_output=True, text=True)
         assert r.returncode == 0, (sid, r.stdout, r.stderr)
         fired = {}
+        try:
+            repo = Repo(tmp)
+        except AnalysisError:
+            repo = None
         for pid, spec in props.PROPS.items():
             try:
-                obs = run_rules(Repo(tmp), spec["rules"])
+                if repo is None:
+                    raise AnalysisError("load")
+                obs = run_rules(repo, spec["rules"])
                 bad = sorted({o.rule for o in obs if not o.ok})
                 if bad:
                     fired[pid] = bad
@@ -30,14 +31,27 @@ for sid in sorted(os.listdir("/verif/seeded")):
     finally:
         shutil.rmtree(tmp, ignore_errors=True)
     own = meta.get("property", sid.split("-")[0])
-    rows.append({"id": sid, "property": own, "own_check_fires": own in fired and fired[own] != ["ANALYSIS-ERROR"],
-                 "own_rules": fired.get(own, []), "all": fired, "summary": meta.get("summary", "")[:160], "needs": meta.get("needs", "")[:200]})
+    row = {"id": sid, "property": own, "own_check_fires": own in fired and fired[own] != ["ANALYSIS-ERROR"],
+           "own_rules": fired.get(own, []), "all": fired, "summary": meta.get("summary", "")[:160], "needs": meta.get("needs", "")[:200]}
     meta["checks_on_patched_copy"] = {"cmd": f"python3-vt tools/seeded_table.py", "fired": fired}
     json.dump(meta, open(d + "/meta.json", "w"), indent=1)
-json.dump(rows, open("/verif/seeded/SUMMARY.json", "w"), indent=1)
-print("| id | own check | rules firing in the own property | other properties firing |")
-print("|---|---|---|---|")
-for r in rows:
-    others = ", ".join(k for k in r["all"] if k != r["property"])
-    print(f"| {r['id']} | {'yes' if r['own_check_fires'] else 'NO'} | {', '.join(r['own_rules'])} | {others} |")
-print(sum(r["own_check_fires"] for r in rows), "of", len(rows), "caught by the check of their own property")
+    return row
+
+
+if __name__ == "__main__":
+    from multiprocessing import Pool
+    sids = []
+    for sid in sorted(os.listdir("/verif/seeded")):
+        d = f"/verif/seeded/{sid}"
+        if os.path.isdir(d) and not json.load(open(d + "/meta.json")).get("obsolete_since"):
+            sids.append(sid)
+    with Pool(int(os.environ.get("JOBS", "12"))) as pool:
+        rows = pool.map(one, sids, chunksize=1)
+    rows.sort(key=lambda r: r["id"])
+    json.dump(rows, open("/verif/seeded/SUMMARY.json", "w"), indent=1)
+    print("| id | own check | rules firing in the own property | other properties firing |")
+    print("|---|---|---|---|")
+    for r in rows:
+        others = ", ".join(k for k in r["all"] if k != r["property"])
+        print(f"| {r['id']} | {'yes' if r['own_check_fires'] else 'NO'} | {', '.join(r['own_rules'])} | {others} |")
+    print(sum(r["own_check_fires"] for r in rows), "of", len(rows), "caught by the check of their own property")
